@@ -9,8 +9,11 @@
 //!
 //! case = {"id", "cfg": {"mode", "nsrc"}, "script": [cmd..]}
 //! cmd = ["build", ty, reaction, cond] | ["trigger", src, ty, n] | ["trigger_noop", src, ty, n] |
-//!       ["wait", b] | ["drop_handle", h] | ["drop_barrier", b]
-//!   ty = 0 | 1 (two distinct Rust trigger types), reaction = "noop" | "suspend" | "panic",
+//!       ["wait", b] | ["drop_handle", h] | ["drop_barrier", b] |
+//!       ["corrupt_read", src, n]  (sim mode: the source reads one byte at offset n of its file with
+//!                                  corruption_probability 1, so turmoil-fs fires the corruption hook,
+//!                                  i.e. trigger_noop(FsCorruption{offset: n, ..}), synchronously)
+//!   ty = 0 | 1 (two distinct Rust trigger types) | 2 (turmoil::fs::FsCorruption, value = offset), reaction = "noop" | "suspend" | "panic",
 //!   cond = ["any"] | ["never"] | ["eq",k] | ["gt",k] | ["mod",m,r]
 //! After every command the harness lets the sources run until quiescent and
 //! records, per source, (trigger calls started, trigger calls returned, task finished).
@@ -32,11 +35,13 @@ struct TB(u64);
 enum AnyBarrier {
     A(Barrier<TA>),
     B(Barrier<TB>),
+    C(Barrier<turmoil::fs::FsCorruption>),
 }
 #[allow(dead_code)]
 enum AnyHandle {
     A(Triggered<TA>),
     B(Triggered<TB>),
+    C(Triggered<turmoil::fs::FsCorruption>),
 }
 
 fn cond_fn(c: &Value) -> Box<dyn Fn(u64) -> bool> {
@@ -66,6 +71,7 @@ fn reaction(v: &Value) -> Reaction {
 enum SrcCmd {
     Trig(u64, u64),
     Noop(u64, u64),
+    CorruptRead(u64),
 }
 
 struct Src {
@@ -88,6 +94,21 @@ async fn source_loop(s: Rc<Src>) {
             SrcCmd::Trig(_, n) => trigger(TB(n)).await,
             SrcCmd::Noop(0, n) => trigger_noop(TA(n)),
             SrcCmd::Noop(_, n) => trigger_noop(TB(n)),
+            SrcCmd::CorruptRead(n) => {
+                use std::os::unix::fs::FileExt;
+                use turmoil::fs::shim::std::fs::OpenOptions;
+                let path = "/corrupt_me";
+                let f = match OpenOptions::new().read(true).write(true).open(path) {
+                    Ok(f) => f,
+                    Err(_) => {
+                        let f = OpenOptions::new().read(true).write(true).create(true).open(path).expect("create");
+                        f.write_at(&[7u8; 16], 0).expect("fill");
+                        f
+                    }
+                };
+                let mut b = [0u8; 1];
+                let _ = f.read_at(&mut b, n);
+            }
         }
         s.returned.set(s.returned.get() + 1);
     }
@@ -109,23 +130,27 @@ impl Test {
                 let f = cond_fn(&c[3]);
                 let b = if ty == 0 {
                     AnyBarrier::A(Barrier::build(r, move |t: &TA| f(t.0)))
-                } else {
+                } else if ty == 1 {
                     AnyBarrier::B(Barrier::build(r, move |t: &TB| f(t.0)))
+                } else {
+                    AnyBarrier::C(Barrier::build(r, move |t: &turmoil::fs::FsCorruption| f(t.offset)))
                 };
                 self.barriers.push(Some(b));
                 json!(self.barriers.len() - 1)
             }
-            "trigger" | "trigger_noop" => {
+            "trigger" | "trigger_noop" | "corrupt_read" => {
                 let s = c[1].as_u64().unwrap() as usize;
                 let src = &srcs[s];
                 if src.started.get() != src.returned.get() || finished(s) {
                     return json!("busy");
                 }
-                let (ty, n) = (c[2].as_u64().unwrap(), c[3].as_u64().unwrap());
+                let (ty, n) = (c[2].as_u64().unwrap(), c.get(3).and_then(|x| x.as_u64()).unwrap_or(0));
                 src.q.borrow_mut().push_back(if name == "trigger" {
                     SrcCmd::Trig(ty, n)
-                } else {
+                } else if name == "trigger_noop" {
                     SrcCmd::Noop(ty, n)
+                } else {
+                    SrcCmd::CorruptRead(ty)
                 });
                 src.notify.notify_one();
                 json!("sent")
@@ -145,6 +170,14 @@ impl Test {
                         Some(Some(t)) => {
                             let n = t.0;
                             Some((AnyHandle::B(t), 1, n))
+                        }
+                        Some(None) => return json!("closed"),
+                        None => None,
+                    },
+                    Some(Some(AnyBarrier::C(bar))) => match bar.wait().now_or_never() {
+                        Some(Some(t)) => {
+                            let n = t.offset;
+                            Some((AnyHandle::C(t), 2, n))
                         }
                         Some(None) => return json!("closed"),
                         None => None,
@@ -232,9 +265,10 @@ fn run_local(case: &Value) -> Value {
 
 fn run_sim(case: &Value) -> Value {
     let nsrc = case["cfg"]["nsrc"].as_u64().unwrap_or(2) as usize;
-    let mut sim = turmoil::Builder::new()
-        .simulation_duration(std::time::Duration::from_secs(3600))
-        .build();
+    let mut bld = turmoil::Builder::new();
+    bld.simulation_duration(std::time::Duration::from_secs(3600));
+    bld.fs().corruption_probability(1.0);
+    let mut sim = bld.build();
     let srcs = new_srcs(nsrc);
     for (i, s) in srcs.iter().enumerate() {
         let s = s.clone();
